@@ -98,7 +98,9 @@ for pid in sorted(titles):
 dtxt = '\n'.join(det)
 p = os.path.join(HERE, 'DESIGN.md')
 s = open(p).read()
-for tag, body in (('STATUS', txt), ('PROPS', dtxt)):
+fl = subprocess.run(['git', '-C', '/repo', 'log', '--reverse', '--format=| `%h` | %s |'], stdout=subprocess.PIPE, text=True).stdout
+fixes = '| commit | what it repairs |\n|---|---|\n' + '\n'.join(l.replace('| fix: ', '| ', 1) for l in fl.splitlines() if '| fix: ' in l)
+for tag, body in (('STATUS', txt), ('PROPS', dtxt), ('FIXES', fixes)):
     if '<!-- %s:BEGIN -->' % tag in s:
         s = re.sub(r'<!-- %s:BEGIN -->.*?<!-- %s:END -->' % (tag, tag), lambda m: '<!-- %s:BEGIN -->\n' % tag + body + '\n<!-- %s:END -->' % tag, s, flags=re.S)
 open(p, 'w').write(s)
